@@ -59,8 +59,8 @@ func (v *faissVectorIndexSection) Process(opaque map[int]resetable, docNum uint3
 
 func (v *faissVectorIndexSection) Persist(opaque map[int]resetable, w *CountHashWriter) (n int64, err error) {
 	vo := v.getvectorIndexOpaque(opaque)
-	vo.writeVectorIndexes(w)
-	return 0, nil
+	_, err = vo.writeVectorIndexes(w)
+	return 0, err
 }
 
 func (v *faissVectorIndexSection) AddrForField(opaque map[int]resetable, fieldID int) int {
